@@ -157,7 +157,7 @@ def run_snip(case, stt):
 def hist_case(draw):
     base = draw(snip_case())
     steps = [draw(st.sampled_from(["same", "n", "frac", "form", "rate", "data", "dtype"])) for _ in range(draw(st.integers(1, 4)))]
-    return {"base": base, "steps": steps, "pick": draw(st.integers(0, 10**6)), "one_object": draw(st.booleans())}
+    return {"base": base, "steps": steps, "pick": draw(st.integers(0, 10**6)), "one_object": draw(st.sampled_from([False, True, "refusals"]))}
 
 
 def run_hist(case, stt):
